@@ -1,0 +1,13 @@
+//go:build verif
+
+package gldap
+
+// VerifHook, when set by the verification harness before a server is started, receives
+// every instrumentation point. It may block to force a schedule.
+var VerifHook func(label string, conn, req int)
+
+func verifPoint(label string, conn, req int) {
+	if h := VerifHook; h != nil {
+		h(label, conn, req)
+	}
+}
